@@ -1,6 +1,7 @@
 import EupsModel.Lemmas.SetupInverse
 import EupsModel.Lemmas.SetupClear
 import EupsModel.Lemmas.SetupShell
+import EupsModel.Model.SetupEmit
 /-! C02 — unsetup is the inverse of setup; a failing request leaves the environment as it found it.
 Model: `EupsModel/Model/Setup.lean` (shared with C01, C04). -/
 namespace EupsModel.C02
@@ -105,6 +106,18 @@ theorem C02_failed_request_leaves_shell (db : Db) (fuel : Nat) (fwd : Bool) (r :
     (hfail : ∀ s, (if fwd then runSetup db fuel r e else runUnsetup db fuel r e) ≠ .ok s) (sh : Shell) :
     (appSetup db fuel fwd r e).apply sh = sh := by
   rcases C02_failed_request_emits_nothing db fuel fwd r e hfail with h | h | h <;> rw [h] <;> rfl
+
+/-- … and at the level of the text `eups_setup` prints (`Model/SetupEmit.lean`: `Setup.delta` rendered by C05's emitter): a
+request that fails prints exactly `false`, or nothing at all (an exception) — no `export`, `unset` or function text,
+whatever the layout of the stacks. -/
+theorem C02_failed_request_text (db : Db) (L : SetupEmit.Layout) (fuel : Nat) (fwd : Bool) (r : Request) (e : Setup.Env)
+    (hfail : ∀ s, (if fwd then runSetup db fuel r e else runUnsetup db fuel r e) ≠ .ok s) :
+    SetupEmit.emitSh db L (appSetup db fuel fwd r e) = some [ShellEmit.sFalse] ∨
+    SetupEmit.emitSh db L (appSetup db fuel fwd r e) = none := by
+  rcases C02_failed_request_emits_nothing db fuel fwd r e hfail with h | h | h <;> rw [h]
+  · left; rfl
+  · right; rfl
+  · right; rfl
 
 /-- … and a request that succeeds hands the shell exactly the environment `Eups.setup` computed: from the shell that holds
 the environment eups was started in (and any functions `f`), after the emitted commands every `SETUP_` record, `<P>_DIR`,
